@@ -19,6 +19,7 @@
 // driver threads sharing the handles; "matrix" exhaustive option x phase
 // enumeration over canonical exchanges of every protocol pair.
 #include "vfh.h"
+#include <arpa/inet.h>
 #include <errno.h>
 #include <pthread.h>
 #include <signal.h>
@@ -82,19 +83,24 @@ abrt_handler(int sig)
 
 // ---------------------------------------------------------------- ledger
 enum { L_NONE = 0, L_APP, L_BUSY };
-#define LMAX 1024
+#define LMAX 4096
 typedef struct {
 	nng_msg *m;
 	int      st;
 	bool     child; // while busy: the same message was received meanwhile
 	uint64_t seq;   // when it became busy
+	uint32_t sig;   // crc of the body as the application last left it
+	size_t   len;
+	uint64_t bseq;  // sequence number found in the body (0: none)
 } lent;
 static lent            led[LMAX];
 static int             led_hi;
 static int             led_cnt;
 static uint64_t        led_seq;
+static atomic_ullong   body_seq; // unique per body written by the harness
 static pthread_mutex_t led_mx = PTHREAD_MUTEX_INITIALIZER;
 static char            prog_tag[48]; // for violation details
+static bool            mt_mode, matrix_mode;
 
 // The same pointer may appear more than once: over inproc the peer can
 // receive (take) a message before the sender has seen its send complete.
@@ -109,6 +115,45 @@ led_find_st(nng_msg *m, int st) // st == L_NONE: any state
 		}
 	}
 	return -1;
+}
+
+#define BODY_TAG 3u
+// write a fresh self-describing body (the application may do what it likes
+// with a message it owns)
+static void
+body_write(nng_msg *m)
+{
+	size_t len = nng_msg_len(m);
+	if (len >= VF_BODY_MIN) {
+		vf_body_make(nng_msg_body(m), len, BODY_TAG, atomic_fetch_add(&body_seq, 1) + 1);
+	} else if (len > 0) {
+		memset(nng_msg_body(m), (int) (0x40 + len), len);
+	}
+}
+
+static void
+led_sign(int i) // remember what the application-owned body looks like
+{
+	nng_msg *m  = led[i].m;
+	led[i].len  = nng_msg_len(m);
+	led[i].sig  = vf_crc32(nng_msg_body(m), led[i].len);
+}
+
+// An idle application-owned message must still be exactly what the
+// application left: nobody else may write to memory the library does not own
+// (shared body after a fan-out without nni_msg_unique, late writes by a
+// transport, ...).
+static void
+led_verify(int i, const char *where)
+{
+	nng_msg *m = led[i].m;
+	vf_stat("app_msgs_reverified", 1);
+	if (nng_msg_len(m) != led[i].len || vf_crc32(nng_msg_body(m), nng_msg_len(m)) != led[i].sig) {
+		char key[128];
+		snprintf(key, sizeof(key), "C03/aliasing/app-owned-msg-changed/%s", where);
+		vf_violation(key, "%s: message %p owned by the application (idle since it was received / its send failed) changed: length %zu -> %zu or body bytes differ", prog_tag, (void *) m, led[i].len, nng_msg_len(m));
+		led_sign(i);
+	}
 }
 
 static int
@@ -130,6 +175,8 @@ led_add(nng_msg *m, int st)
 	led[i].st    = st;
 	led[i].child = false;
 	led[i].seq   = ++led_seq;
+	led[i].bseq  = 0;
+	led_sign(i);
 	led_cnt++;
 	return i;
 }
@@ -157,12 +204,14 @@ led_alloc(size_t sz, uint64_t key, int *slot)
 {
 	nng_msg *m;
 	if (led_count() >= LMAX - 64) {
+		vf_stat("ledger_full", 1);
 		return NULL;
 	}
 	if (nng_msg_alloc(&m, sz) != 0) {
 		vf_harness_fail("nng_msg_alloc(%zu)", sz);
 	}
-	vf_fill(nng_msg_body(m), sz, key);
+	(void) key;
+	body_write(m);
 	pthread_mutex_lock(&led_mx);
 	// (an entry in L_BUSY with this address is a send that the library has
 	// already consumed and freed, only its completion is not reported yet)
@@ -188,6 +237,7 @@ led_pick(vf_rng *r, int *slot)
 		for (int k = 0; k < led_hi; k++) {
 			int i = (start + k) % led_hi;
 			if (led[i].st == L_APP) {
+				led_verify(i, "before-resend");
 				led[i].st    = L_BUSY;
 				led[i].child = false;
 				led[i].seq   = ++led_seq;
@@ -209,6 +259,7 @@ led_mark_busy(int slot) // idle app message about to be sent
 		pthread_mutex_unlock(&led_mx);
 		vf_harness_fail("ledger: message to send is not app-owned");
 	}
+	led_verify(slot, "before-resend");
 	led[slot].st    = L_BUSY;
 	led[slot].child = false;
 	led[slot].seq   = ++led_seq;
@@ -232,6 +283,8 @@ led_release(int slot, const char *proto)
 		led_del(slot);
 	} else {
 		led[slot].st = L_APP;
+		// a failed send hands the message back as it was
+		led_verify(slot, "after-failed-send");
 	}
 	pthread_mutex_unlock(&led_mx);
 	if (dup) {
@@ -282,17 +335,63 @@ led_take(nng_msg *m, int st, const char *proto, const char *api, int *slot)
 	if (parent >= 0) {
 		led[parent].child = true;
 	}
+	// a body written by the harness must arrive intact ...
+	uint32_t tag  = 0;
+	uint64_t bseq = 0;
+	size_t   len  = nng_msg_len(m);
+	bool     bad  = false;
+	int      rc   = len >= VF_BODY_MIN ? vf_body_check(nng_msg_body(m), len, &tag, &bseq) : -1;
+	if (rc == 0 && tag == BODY_TAG) {
+		vf_stat("bodies_verified", 1);
+	} else if (rc == -4) {
+		// magic and length field are in place but the checksum is not.
+		// (A body whose front was consumed as protocol header by a
+		// receiver - raw sender without header words - fails the magic
+		// or length test instead and is not judged.)
+		bad = true;
+	} else {
+		bseq = 0;
+	}
 	int i = led_add(m, st);
 	if (i < 0) {
 		pthread_mutex_unlock(&led_mx);
+		vf_stat("ledger_full", 1);
 		nng_msg_free(m); // no room: still exactly one release
 		return false;
+	}
+	led[i].bseq = bad ? 0 : bseq;
+	// ... and the same body handed to several receivers (fan-out) must be
+	// a private copy each: we now WRITE to ours; the siblings are checked
+	// again when they are re-sent or freed.
+	if (bseq != 0) {
+		for (int k = 0; k < led_hi; k++) {
+			if (k != i && led[k].st == L_APP && led[k].bseq == bseq && led[k].m != m) {
+				vf_stat("sibling_receives", 1);
+				break;
+			}
+		}
+	}
+	if (!bad && (led[i].seq & 1)) {
+		if ((led[i].seq & 6) == 2 && len < 100000) {
+			nng_msg_append(m, "scribblescribble", 1 + (led[i].seq >> 3) % 16);
+		} else if ((led[i].seq & 6) == 4 && len > VF_BODY_MIN + 4) {
+			nng_msg_chop(m, 1 + (led[i].seq >> 3) % 4);
+		}
+		body_write(m);
+		led[i].bseq = 0; // (no longer the delivered body)
+		led_sign(i);
+		vf_stat("received_msgs_scribbled", 1);
 	}
 	if (slot != NULL) {
 		*slot = i;
 	}
 	pthread_mutex_unlock(&led_mx);
 	vf_stat("msgs_from_lib", 1);
+	vf_stat(mt_mode ? "mt_msgs_from_lib" : matrix_mode ? "matrix_msgs_from_lib" : "st_msgs_from_lib", 1);
+	if (bad) {
+		snprintf(key, sizeof(key), "C03/aliasing/received-body-invalid/%s", proto);
+		vf_violation(key, "%s: %s delivered message %p (%zu bytes) whose self-describing body is damaged: somebody wrote to it after it was sent", prog_tag, api, (void *) m, len);
+	}
 	return true;
 }
 
@@ -306,6 +405,7 @@ led_free_some(vf_rng *r, int n)
 	for (int i = 0; i < led_hi && done < n; i++) {
 		if (led[i].st == L_APP) {
 			nng_msg *m = led[i].m;
+			led_verify(i, "before-free");
 			led[i].st  = L_NONE;
 			led[i].m   = NULL;
 			led_cnt--;
@@ -326,6 +426,7 @@ led_free_all(void)
 	for (int i = 0; i < led_hi; i++) {
 		if (led[i].st != L_NONE) {
 			nng_msg *m = led[i].m;
+			if (led[i].st == L_APP) led_verify(i, "before-free");
 			led[i].st  = L_NONE;
 			led[i].m   = NULL;
 			nng_msg_free(m);
@@ -398,7 +499,6 @@ static aiom  A[MAXA];
 
 static pthread_mutex_t mx = PTHREAD_MUTEX_INITIALIZER; // model lock; never held across nng calls
 static bool            race_prog;                    // minority: close races with pending finite ops
-static bool            mt_mode;
 static atomic_long     ops_done;
 static atomic_uint     trans_used; // bit per transport the program connected over
 static long            ops_target;
@@ -602,7 +702,8 @@ static size_t
 pick_size(vf_rng *r)
 {
 	uint32_t x = vf_below(r, 100);
-	if (x < 40) return vf_below(r, 65);
+	if (x < 8) return vf_below(r, VF_BODY_MIN);          // too short for a self-describing body
+	if (x < 40) return VF_BODY_MIN + vf_below(r, 41);
 	if (x < 80) return 65 + vf_below(r, 536);
 	if (x < 96) return 601 + vf_below(r, 4400);
 	return 66000 + vf_below(r, 8000);
@@ -668,7 +769,16 @@ static const optdef opts[] = {
 	{ NNG_OPT_WS_RECVMAXFRAME, "WS_RXFRAME", 'z', 0, false, true, 5, { 16, 126, 4096, 65536, 0 } },
 	{ NNG_OPT_TCP_NODELAY, "NODELAY", 'b', 0, false, true, 2, { 0, 1 } },
 	{ NNG_OPT_TCP_KEEPALIVE, "KEEPALIVE", 'b', 0, false, true, 2, { 0, 1 } },
+	// allocating (string) and remaining endpoint options; values index strvals[]
+	{ NNG_OPT_WS_PROTOCOL, "WS_PROTOCOL", 's', 0, false, true, 4, { 0, 1, 2, 3 } },
+	{ NNG_OPT_WS_HEADER "X-Vf-One", "WS_HEADER1", 's', 0, false, true, 4, { 0, 1, 2, 3 } },
+	{ NNG_OPT_WS_HEADER "X-Vf-Two", "WS_HEADER2", 's', 0, false, true, 4, { 1, 3, 0, 2 } },
+	{ NNG_OPT_WS_SEND_TEXT, "WS_SEND_TEXT", 'b', 0, false, true, 2, { 0, 1 } },
+	{ NNG_OPT_WS_RECV_TEXT, "WS_RECV_TEXT", 'b', 0, false, true, 2, { 1, 0 } },
+	{ NNG_OPT_IPC_PERMISSIONS, "IPC_PERMISSIONS", 'i', 0, false, true, 3, { 0600, 0666, 0 } },
 };
+static char        str1k[1025];
+static const char *strvals[4] = { "", "x", "vf.sp.nanomsg.org", str1k };
 #define NOPTS ((int) (sizeof(opts) / sizeof(opts[0])))
 
 static void
@@ -676,6 +786,8 @@ val_tag(const optdef *o, long v, char *buf, size_t sz)
 {
 	if (o->type == 'm' && v == -1) {
 		snprintf(buf, sz, "inf");
+	} else if (o->type == 's') {
+		snprintf(buf, sz, "str%zu", strlen(strvals[v]));
 	} else {
 		snprintf(buf, sz, "%ld", v);
 	}
@@ -705,6 +817,7 @@ set_opt(int kind, nng_socket s, nng_ctx c, nng_dialer d, nng_listener l, const o
 		case 'i': return nng_dialer_set_int(d, o->name, (int) v);
 		case 'm': return nng_dialer_set_ms(d, o->name, (nng_duration) v);
 		case 'z': return nng_dialer_set_size(d, o->name, (size_t) v);
+		case 's': return nng_dialer_set_string(d, o->name, strvals[v]);
 		default: return nng_dialer_set_bool(d, o->name, v != 0);
 		}
 	default:
@@ -712,6 +825,7 @@ set_opt(int kind, nng_socket s, nng_ctx c, nng_dialer d, nng_listener l, const o
 		case 'i': return nng_listener_set_int(l, o->name, (int) v);
 		case 'm': return nng_listener_set_ms(l, o->name, (nng_duration) v);
 		case 'z': return nng_listener_set_size(l, o->name, (size_t) v);
+		case 's': return nng_listener_set_string(l, o->name, strvals[v]);
 		default: return nng_listener_set_bool(l, o->name, v != 0);
 		}
 	}
@@ -724,6 +838,7 @@ get_opt(int kind, nng_socket s, nng_ctx c, nng_dialer d, nng_listener l, const o
 	nng_duration m;
 	size_t       z;
 	bool         b;
+	const char  *str;
 	switch (kind) {
 	case TG_SOCK:
 		switch (o->type) {
@@ -744,6 +859,7 @@ get_opt(int kind, nng_socket s, nng_ctx c, nng_dialer d, nng_listener l, const o
 		case 'i': return nng_dialer_get_int(d, o->name, &i);
 		case 'm': return nng_dialer_get_ms(d, o->name, &m);
 		case 'z': return nng_dialer_get_size(d, o->name, &z);
+		case 's': return nng_dialer_get_string(d, o->name, &str);
 		default: return nng_dialer_get_bool(d, o->name, &b);
 		}
 	default:
@@ -751,6 +867,7 @@ get_opt(int kind, nng_socket s, nng_ctx c, nng_dialer d, nng_listener l, const o
 		case 'i': return nng_listener_get_int(l, o->name, &i);
 		case 'm': return nng_listener_get_ms(l, o->name, &m);
 		case 'z': return nng_listener_get_size(l, o->name, &z);
+		case 's': return nng_listener_get_string(l, o->name, &str);
 		default: return nng_listener_get_bool(l, o->name, &b);
 		}
 	}
@@ -1069,6 +1186,7 @@ op_send(thr *t)
 {
 	target tg;
 	int    form = (int) vf_below(&t->r, 3), ai = -1;
+	bool   bytes = vf_chance(&t->r, 1, 10); // nng_send(): copying form
 	LOCK();
 	bool dev = vf_chance(&t->r, 1, 40);
 	if (!pick_target(t, vf_chance(&t->r, 2, 5), dev, &tg)) {
@@ -1076,6 +1194,27 @@ op_send(thr *t)
 		return;
 	}
 	if (!can_send(tg.pk) && !vf_chance(&t->r, 1, 12)) { // mostly skip: documented NNG_ENOTSUP
+		put_target(&tg);
+		UNLOCK();
+		return;
+	}
+	if (bytes && tg.ci < 0) {
+		// no message changes hands: allocator balance and ASan judge
+		char   phase[64];
+		size_t len = pick_size(&t->r) % 5000;
+		snprintf(phase, sizeof(phase), "%s", tg.phase);
+		UNLOCK();
+		uint8_t *buf = malloc(len + 1);
+		if (len >= VF_BODY_MIN) vf_body_make(buf, len, BODY_TAG, atomic_fetch_add(&body_seq, 1) + 1); else memset(buf, 0x5a, len);
+		int fl = vf_chance(&t->r, 1, 2) ? NNG_FLAG_NONBLOCK : 0;
+		cell(fl ? "send_bytes_nb" : "send_bytes", &tg);
+		tr("t%d nng_send%s %s len=%zu [%s]", t->id, fl ? "(NB)" : "", tg.pname, len, phase);
+		int rv = nng_send(tg.hs, buf, len, fl);
+		free(buf);
+		vf_stat(rv == 0 ? "byte_sends_ok" : "byte_sends_failed", 1);
+		note_rv("send", &tg, rv);
+		LOCK();
+		model_after_send(tg.si, -1, rv);
 		put_target(&tg);
 		UNLOCK();
 		return;
@@ -1124,11 +1263,52 @@ op_recv(thr *t)
 	target tg;
 	int    form = (int) vf_below(&t->r, 3), ai = -1;
 	LOCK();
-	if (!pick_target(t, vf_chance(&t->r, 2, 5), vf_chance(&t->r, 1, 40), &tg)) {
+	// prefer a target that the model expects to have something to receive
+	for (int tries = 0;; tries++) {
+		if (!pick_target(t, vf_chance(&t->r, 2, 5), vf_chance(&t->r, 1, 40), &tg)) {
+			UNLOCK();
+			return;
+		}
+		bool o = tg.ci >= 0 ? C[tg.ci].outstanding : S[tg.si].outstanding;
+		if (tries >= 3 || S[tg.si].inq > 0 || o || vf_chance(&t->r, 1, 4)) break;
+		put_target(&tg);
+	}
+	if (!can_recv(tg.pk) && !vf_chance(&t->r, 1, 12)) {
+		put_target(&tg);
 		UNLOCK();
 		return;
 	}
-	if (!can_recv(tg.pk) && !vf_chance(&t->r, 1, 12)) {
+	if (tg.ci < 0 && vf_chance(&t->r, 1, 10)) {
+		// nng_recv(): the library copies into our buffer and frees its message
+		int fl = (S[tg.si].inq == 0 && !S[tg.si].outstanding) || vf_chance(&t->r, 1, 2) ? NNG_FLAG_NONBLOCK : 0;
+		UNLOCK();
+		uint8_t buf[512];
+		size_t  sz = vf_chance(&t->r, 1, 4) ? 16 : sizeof(buf); // also shorter than the message
+		size_t  cap = sz;
+		cell(fl ? "recv_bytes_nb" : "recv_bytes", &tg);
+		tr("t%d nng_recv%s %s cap=%zu [%s]", t->id, fl ? "(NB)" : "", tg.pname, sz, tg.phase);
+		int rv = nng_recv(tg.hs, buf, &sz, fl);
+		if (rv == 0) {
+			vf_stat("byte_recvs_ok", 1);
+			if (sz <= cap && sz >= VF_BODY_MIN) {
+				uint32_t tag;
+				int      rc = vf_body_check(buf, sz, &tag, NULL);
+				if (rc != 0 && rc != -4) {
+					// front consumed as protocol header: not judged
+				} else if (rc == -4) {
+					char key[128];
+					snprintf(key, sizeof(key), "C03/aliasing/received-body-invalid/%s", tg.pname);
+					vf_violation(key, "%s: nng_recv delivered %zu bytes whose self-describing body is damaged", prog_tag, sz);
+				} else {
+					vf_stat("bodies_verified", 1);
+				}
+			}
+		} else {
+			vf_stat("byte_recvs_failed", 1);
+		}
+		note_rv("recv", &tg, rv);
+		LOCK();
+		model_after_recv(tg.si, -1, rv);
 		put_target(&tg);
 		UNLOCK();
 		return;
@@ -1202,6 +1382,7 @@ op_setopt(thr *t)
 	// mostly options that apply to the target, sometimes any (NNG_ENOTSUP)
 	for (int tries = 0;; tries++) {
 		o = &opts[vf_below(&t->r, NOPTS)];
+		if ((kind == TG_SOCK || kind == TG_CTX) && o->type == 's') continue; // no string setter on sockets/contexts
 		if (tries > 30 || vf_chance(&t->r, 1, 8)) break;
 		if (kind == TG_SOCK && (o->protos & PB(tg.pk))) break;
 		if (kind == TG_CTX && o->on_ctx && (o->protos & PB(tg.pk))) break;
@@ -1222,6 +1403,7 @@ op_setopt(thr *t)
 		vf_stat("opt_sets", 1);
 		if (rv == 0) {
 			vf_stat("opt_sets_ok", 1);
+			if (o->type == 's') vf_stat("string_opt_sets_ok", 1);
 			vf_class("opt/%s=%s/%s%s/%s", o->tag, vt, tg.pname, kn, tg.phase);
 		} else {
 			vf_class("optfail/%s/%s%s/%s", o->tag, tg.pname, kn, nng_strerror(rv));
@@ -1407,6 +1589,15 @@ static void
 ep_pre_options(thr *t, bool dialer, nng_dialer d, nng_listener l, const char *pname)
 {
 	int n = (int) vf_below(&t->r, 3);
+	if (dialer && vf_chance(&t->r, 1, 4)) {
+		nng_sockaddr sa;
+		memset(&sa, 0, sizeof(sa));
+		sa.s_in.sa_family = NNG_AF_INET;
+		sa.s_in.sa_addr   = htonl(0x7f000001);
+		int rv = nng_dialer_set_addr(d, NNG_OPT_LOCADDR, &sa);
+		tr("t%d   pre-start set LOCADDR=127.0.0.1:0 on %s.dialer -> %d", t->id, pname, rv);
+		if (rv == 0) vf_class("opt/LOCADDR/%s.dialer/before-start", pname);
+	}
 	for (int k = 0; k < n; k++) {
 		const optdef *o;
 		do {
@@ -1416,6 +1607,7 @@ ep_pre_options(thr *t, bool dialer, nng_dialer d, nng_listener l, const char *pn
 		char vt[24];
 		val_tag(o, v, vt, sizeof(vt));
 		int rv = set_opt(dialer ? TG_DIALER : TG_LISTENER, (nng_socket) { 0 }, (nng_ctx) { 0 }, d, l, o, v);
+		if (o->type == 's' && rv == 0) vf_stat("string_opt_sets_ok", 1);
 		tr("t%d   pre-start set %s=%s on %s.%s -> %d", t->id, o->tag, vt, pname, dialer ? "dialer" : "listener", rv);
 		vf_stat("opt_sets", 1);
 		if (rv == 0) {
@@ -1501,6 +1693,12 @@ op_connect(thr *t, int wa, int wb, int wtran)
 		}
 	} else {
 		vf_url(tran, url, sizeof(url));
+		if (tran == VF_T_IPC && vf_chance(&t->r, 1, 3)) {
+			// linux abstract socket namespace
+			static atomic_int an;
+			snprintf(url, sizeof(url), "abstract://vf-c03-%d-%d", (int) getpid(), atomic_fetch_add(&an, 1));
+			vf_stat("abstract_ipc_connects", 1);
+		}
 		if (vf_chance(&t->r, 1, 2)) {
 			rva = nng_listen(ha, url, &l, 0);
 		} else if ((rva = nng_listener_create(&l, ha, url)) == 0) {
@@ -1811,9 +2009,11 @@ op_aio_alloc_free(thr *t)
 	} else {
 		// nng_aio_free stops the operation and waits for the callback
 		tr("t%d aio%d free (state %d)", t->id, ai, a->st);
-		vf_class("aio_free/%s", a->st == A_IDLE ? "idle" : a->st == A_ECHO ? "echo-running" : atomic_load(&a->done) ? "completed" : "pending");
 		if (a->st == A_ECHO) atomic_store(&a->quit, 1);
-		nng_aio_stop(a->a); // (free alone would do; stop first is the documented safe order)
+		bool stop_first = vf_chance(&t->r, 1, 2);
+		vf_class("aio_free/%s/%s", stop_first ? "after-stop" : "direct", a->st == A_IDLE ? "idle" : a->st == A_ECHO ? "echo-running" : atomic_load(&a->done) ? "completed" : "pending");
+		if (a->st != A_IDLE && !atomic_load(&a->done) && !stop_first) vf_stat("aio_freed_while_pending", 1);
+		if (stop_first) nng_aio_stop(a->a); // the documented safe order; free alone must do as well
 		nng_aio_free(a->a);
 		LOCK();
 		a->a  = NULL;
@@ -2260,9 +2460,11 @@ teardown(thr *t)
 			if (a->st == A_DEV) {
 				device_stop(t, i, true);
 			} else {
-				tr("t%d aio%d stop+free (state %d)", t->id, i, a->st);
+				bool stop_first = vf_chance(&t->r, 1, 2);
+				tr("t%d aio%d %sfree (state %d)", t->id, i, stop_first ? "stop+" : "", a->st);
 				if (a->st == A_ECHO) atomic_store(&a->quit, 1);
-				nng_aio_stop(a->a);
+				if (a->st != A_IDLE && !atomic_load(&a->done) && !stop_first) vf_stat("aio_freed_while_pending", 1);
+				if (stop_first) nng_aio_stop(a->a);
 			}
 			nng_aio_free(a->a);
 			a->a  = NULL;
@@ -2299,6 +2501,7 @@ finish_program(void)
 	vf_stat("allocations_tracked", vf_alloc_total() - last_total);
 	last_total = vf_alloc_total();
 	vf_stat("programs", 1);
+	vf_stat(mt_mode ? "mt_programs" : matrix_mode ? "matrix_programs" : "st_programs", 1);
 	vf_stat("fini_balance_checks", 1);
 }
 
@@ -2328,8 +2531,22 @@ run_random_program(long idx)
 		if (nng_aio_alloc(&A[i].a, aio_cb, &A[i]) != 0) vf_harness_fail("nng_aio_alloc");
 		A[i].st = A_IDLE;
 	}
-	// most programs start from a connected peer pair
-	if (!vf_chance(&r, 1, 10)) {
+	// a quarter of the programs start from a fan-out topology: one hub whose
+	// sends are cloned to several receivers (pub, bus, surveyor)
+	if (vf_chance(&r, 1, 4)) {
+		static const int hubs[] = { P_PUB, P_BUS, P_SURV };
+		int              hk     = hubs[vf_below(&r, 3)];
+		int              hub    = open_socket(&T[0], hk, false);
+		int              nl     = (int) vf_range(&r, 2, 3);
+		for (int k = 0; k < nl && hub >= 0; k++) {
+			int leaf = open_socket(&T[0], peer_pk(hk), vf_chance(&r, 1, 5));
+			if (leaf >= 0) {
+				static const int ft[] = { VF_T_INPROC, VF_T_INPROC, VF_T_INPROC, VF_T_IPC, VF_T_TCP };
+				op_connect(&T[0], hub, leaf, ft[vf_below(&r, 5)]);
+			}
+		}
+		vf_stat("fanout_topologies", 1);
+	} else if (!vf_chance(&r, 1, 10)) {
 		int  pk = (int) vf_below(&r, P_N);
 		bool ra = vf_chance(&r, 1, 4), rb = vf_chance(&r, 1, 4);
 		if (pk == P_PAIR1 || pk == P_PAIR0) rb = ra; // raw/cooked pair1 differ on the wire
@@ -2371,11 +2588,16 @@ typedef struct {
 // actions: s send fresh, r receive, e send back the last message received on
 // that side, p close the pipe the last message arrived on
 #define RR "AsBrBeArAsBrBpBrBeAr"
+// a new request while the previous one is still outstanding (before and
+// after the replier saw it)
+#define RENEW "AsBrAsBrBeArAsAsBrBeAr"
 #define FLOW "AsAsAsAsBrBrBrBr"
 #define DUPLEX "AsAsAsAsBrBrBsBsBrBrArAr"
 #define SURVEY "AsBrBeArArAsBrBeAr"
 static const mpair mpairs[] = {
 	{ "req-rep", P_REQ, false, P_REP, false, false, RR },
+	{ "req-rep/renew", P_REQ, false, P_REP, false, false, RENEW },
+	{ "req-rep.ctx/renew", P_REQ, false, P_REP, false, true, RENEW },
 	{ "req-rep.ctx", P_REQ, false, P_REP, false, true, RR },
 	{ "xreq-xrep", P_REQ, true, P_REP, true, false, "AsBrBeArAsBrBeAr" },
 	{ "req-xrep", P_REQ, false, P_REP, true, false, RR },
@@ -2403,7 +2625,7 @@ static const struct {
 } mopts[] = {
 	{ NNG_OPT_RECVBUF, 3 }, { NNG_OPT_SENDBUF, 3 }, { NNG_OPT_REQ_RESENDTIME, 3 },
 	{ NNG_OPT_REQ_RESENDTICK, 1 }, { NNG_OPT_SURVEYOR_SURVEYTIME, 2 }, { NNG_OPT_SUB_PREFNEW, 2 },
-	{ NNG_OPT_RECVMAXSZ, 2 }, { NNG_OPT_MAXTTL, 1 }, { NNG_OPT_RECVTIMEO, 1 },
+	{ NNG_OPT_RECVMAXSZ, 2 }, { NNG_OPT_MAXTTL, 1 }, { NNG_OPT_RECVTIMEO, 0 },
 };
 #define NMOPTS ((int) (sizeof(mopts) / sizeof(mopts[0])))
 
@@ -2431,7 +2653,7 @@ m_send(mside *x, nng_msg *m, int slot, vf_rng *r)
 }
 
 static void
-run_matrix_case(long idx, const mpair *mp, int pos, int side, const optdef *o, long v, int initi, int tran)
+run_matrix_case(long idx, const mpair *mp, int pos, int side, const optdef *o, long v, int initi, int tran, bool aiov)
 {
 	vf_rng r;
 	mside  X[2];
@@ -2482,8 +2704,40 @@ run_matrix_case(long idx, const mpair *mp, int pos, int side, const optdef *o, l
 	tr("open %s; connect over %s (B listens, A dials)", mp->name, vf_tran_names[tran]);
 	if (vf_connect(X[1].s, X[0].s, tran) != 0) vf_harness_fail("matrix connect over %s", vf_tran_names[tran]);
 	if (mp->pa == P_PUB) vf_msleep(3);
-	bool did = false;
+	bool     did = false;
+	nng_aio *maio = NULL;
 	for (int p = 0; p <= nsteps; p++) {
+		// aio variant: the step at this position is submitted as an aio
+		// BEFORE the option changes and waited for after it
+		bool     deferred = false;
+		nng_msg *dmsg     = NULL;
+		int      dslot    = -1;
+		if (p == pos && aiov && p < nsteps && mp->script[2 * p + 1] != 'p') {
+			mside *y   = &X[mp->script[2 * p] == 'A' ? 0 : 1];
+			char   act = mp->script[2 * p + 1];
+			if (maio == NULL && nng_aio_alloc(&maio, NULL, NULL) != 0) vf_harness_fail("nng_aio_alloc");
+			nng_aio_set_timeout(maio, 80);
+			if (act == 'r') {
+				if (y->use_ctx) nng_ctx_recv(y->c, maio); else nng_socket_recv(y->s, maio);
+			} else {
+				if (act == 'e' && y->last != NULL) {
+					dmsg    = y->last;
+					dslot   = y->last_slot;
+					y->last = NULL;
+					led_mark_busy(dslot);
+				} else {
+					dmsg = build_msg(&r, y->pk, y->raw, y->last_pipe, VF_BODY_MIN + vf_below(&r, 200), &dslot);
+				}
+				if (dmsg == NULL) vf_harness_fail("ledger full");
+				nng_aio_set_msg(maio, dmsg);
+				if (y->use_ctx) nng_ctx_send(y->c, maio); else nng_socket_send(y->s, maio);
+			}
+			deferred = true;
+			bool pending = nng_aio_busy(maio);
+			tr("%c aio %s submitted (%s)", mp->script[2 * p], act == 'r' ? "recv" : "send", pending ? "pending" : "already complete");
+			vf_stat(pending ? "matrix_opt_while_aio_pending" : "matrix_opt_after_aio_done", 1);
+			vf_class("matrix-aio/%s/%s@%s/%s", mp->name, o->tag, posn, pending ? "pending" : "complete");
+		}
 		if (p == pos) {
 			mside *x    = &X[side];
 			int    kind = (x->use_ctx && o->on_ctx) ? TG_CTX : TG_SOCK;
@@ -2498,10 +2752,49 @@ run_matrix_case(long idx, const mpair *mp, int pos, int side, const optdef *o, l
 		mside *x   = &X[mp->script[2 * p] == 'A' ? 0 : 1];
 		char   act = mp->script[2 * p + 1];
 		int    rv  = 0;
+		if (deferred) {
+			nng_aio_wait(maio);
+			rv = (int) nng_aio_result(maio);
+			tr("%c aio completed -> %d", mp->script[2 * p], rv);
+			if (act == 'r') {
+				int slot = -1;
+				if (rv == 0) {
+					nng_msg *m = nng_aio_get_msg(maio);
+					nng_aio_set_msg(maio, NULL);
+					uint32_t pid = m != NULL ? nng_msg_get_pipe(m).id : 0;
+					if (led_take(m, L_APP, x->pname, "nng_socket_recv", &slot)) {
+						x->last      = m;
+						x->last_slot = slot;
+						x->last_pipe = pid;
+						vf_stat("recvs_ok", 1);
+						vf_stat("recvs_ok_after_option_change", 1);
+					}
+				} else {
+					vf_stat("recvs_failed", 1);
+					if (rv == NNG_ETIMEDOUT) x->slow = true;
+				}
+			} else {
+				if (rv == 0) {
+					led_give(dslot);
+					vf_stat("sends_ok", 1);
+				} else {
+					vf_stat("failed_aio_sends_checked", 1);
+					if (nng_aio_get_msg(maio) != dmsg) {
+						char key[128];
+						snprintf(key, sizeof(key), "C03/ownership/msg-not-attached-after-failed-send/%s", x->pname);
+						vf_violation(key, "%s: aio send completed with %s but nng_aio_get_msg returns %p, submitted %p", prog_tag, nng_strerror(rv), (void *) nng_aio_get_msg(maio), (void *) dmsg);
+					}
+					led_release(dslot, x->pname);
+					vf_stat("sends_failed", 1);
+				}
+				nng_aio_set_msg(maio, NULL);
+			}
+			continue;
+		}
 		switch (act) {
 		case 's': {
 			int      slot = -1;
-			nng_msg *m    = build_msg(&r, x->pk, x->raw, x->last_pipe, vf_chance(&r, 1, 6) ? 300 + vf_below(&r, 3000) : vf_below(&r, 90), &slot);
+			nng_msg *m    = build_msg(&r, x->pk, x->raw, x->last_pipe, vf_chance(&r, 1, 6) ? 300 + vf_below(&r, 3000) : vf_chance(&r, 1, 10) ? vf_below(&r, VF_BODY_MIN) : VF_BODY_MIN + vf_below(&r, 70), &slot);
 			if (m == NULL) vf_harness_fail("ledger full");
 			rv = m_send(x, m, slot, &r);
 			tr("%c send -> %d", mp->script[2 * p], rv);
@@ -2514,7 +2807,7 @@ run_matrix_case(long idx, const mpair *mp, int pos, int side, const optdef *o, l
 			if (m != NULL) {
 				led_mark_busy(slot);
 			} else {
-				m = build_msg(&r, x->pk, x->raw, x->last_pipe, 20, &slot);
+				m = build_msg(&r, x->pk, x->raw, x->last_pipe, 40, &slot);
 			}
 			if (m == NULL) vf_harness_fail("ledger full");
 			rv = m_send(x, m, slot, &r);
@@ -2557,6 +2850,7 @@ run_matrix_case(long idx, const mpair *mp, int pos, int side, const optdef *o, l
 		if (x->use_ctx && (order & 2)) nng_ctx_close(x->c);
 		nng_socket_close(x->s);
 	}
+	if (maio != NULL) nng_aio_free(maio);
 	vf_stat("calls", nsteps + 12);
 	finish_program();
 	if ((idx % 509) == 0) {
@@ -2587,7 +2881,9 @@ run_matrix(void)
 						if ((idx % vf_nshards) != vf_shard || !vf_want_case(idx)) continue;
 						static const int tw[] = { VF_T_INPROC, VF_T_INPROC, VF_T_INPROC, VF_T_INPROC, VF_T_IPC, VF_T_TCP, VF_T_TCP, VF_T_WS, VF_T_SOCKFD, VF_T_INPROC };
 						int              tran = tw[vf_mix64(vf_seed ^ (uint64_t) idx * 31) % 10];
-						run_matrix_case(idx, mp, pos, side, o, o->vals[vi], initi, tran);
+						// aio variant (step at the position pending as an aio): chosen by hash
+						bool av = (vf_mix64(vf_seed + (uint64_t) idx * 131) & 1) != 0;
+						run_matrix_case(idx, mp, pos, side, o, o->vals[vi], initi, tran, av);
 					}
 				}
 			}
@@ -2601,10 +2897,12 @@ main(int argc, char **argv)
 {
 	vf_init(argc, argv);
 	prev_abrt = signal(SIGABRT, abrt_handler);
+	memset(str1k, 'a', sizeof(str1k) - 1);
 	for (int i = 0; i < MAXS; i++) {
 		pthread_mutex_init(&S[i].pmx, NULL);
 	}
 	if (!strcmp(vf_mode, "matrix")) {
+		matrix_mode = true;
 		run_matrix();
 	} else {
 		mt_mode = !strcmp(vf_mode, "mt");
